@@ -134,6 +134,50 @@ void AttributesTools::actualizeAttributesMap(
 
 /******************************************************************************/
 
+namespace
+{
+// Expand every variable reference of 'value'. 'stack' holds the names of the variables being
+// expanded (outermost first): a reference to one of them is cyclic and is ignored.
+std::string resolveValue_(
+    const std::string& value,
+    const std::map<std::string, std::string>& am,
+    const std::string& varTag,
+    const std::string& varEnd,
+    std::vector<std::string>& stack)
+{
+  string result = value;
+  string::size_type index1 = result.find(varTag);
+  while (index1 != string::npos)
+  {
+    string::size_type index2 = result.find(varEnd, index1);
+    if (index2 == string::npos)
+      throw Exception("Syntax error, variable name is not closed.");
+    string varName  = result.substr(index1 + 2, index2 - index1 - 2);
+    map<string, string>::const_iterator varIt = am.find(varName);
+    string varValue = "";
+    if (varIt == am.end())
+    {
+      if (ApplicationTools::error)
+        (*ApplicationTools::error << "Variable '" << varName << "' is undefined and was ignored.").endLine();
+    }
+    else if (std::find(stack.begin(), stack.end(), varName) != stack.end())
+    {
+      if (ApplicationTools::error)
+        (*ApplicationTools::error << "Variable '" << varName << "' definition is cyclic and was ignored.").endLine();
+    }
+    else
+    {
+      stack.push_back(varName);
+      varValue = resolveValue_(varIt->second, am, varTag, varEnd, stack);
+      stack.pop_back();
+    }
+    result = result.substr(0, index1) + varValue + result.substr(index2 + 1);
+    index1 = result.find(varTag, index1 + varValue.size());
+  }
+  return result;
+}
+}
+
 void AttributesTools::resolveVariables(
     std::map<std::string, std::string>& am,
     char varCode,
@@ -141,43 +185,11 @@ void AttributesTools::resolveVariables(
     char varEnd)
 {
   // Now resolve any variable:
+  const string varTag = TextTools::toString(varCode) + TextTools::toString(varBeg);
   for (map<string, string>::iterator it = am.begin(); it != am.end(); it++)
   {
-    string value = it->second;
-    string::size_type index1 = value.find(TextTools::toString(varCode) + TextTools::toString(varBeg));
-    while (index1 != string::npos)
-    {
-      string::size_type index2 = value.find(TextTools::toString(varEnd), index1);
-      if (index2 != string::npos)
-      {
-        string varName  = value.substr(index1 + 2, index2 - index1 - 2);
-        map<string, string>::iterator varIt = am.find(varName);
-        string varValue = "";
-        if (varIt == am.end())
-        {
-          if (ApplicationTools::error)
-            (*ApplicationTools::error << "Variable '" << varName << "' is undefined and was ignored.").endLine();
-          varValue = "";
-        }
-        else
-        {
-          if (varIt->second == value)
-          {
-            if (ApplicationTools::error)
-              (*ApplicationTools::error << "Variable '" << varName << "' definition is cyclic and was ignored.").endLine();
-            varValue = "";
-          }
-          else
-            varValue = varIt->second;
-        }
-        string newValue = value.substr(0, index1) + varValue + value.substr(index2 + 1);
-        it->second = newValue;
-        value = it->second;
-        index1 = value.find(TextTools::toString(varCode) + TextTools::toString(varBeg));
-      }
-      else
-        throw Exception("Syntax error, variable name is not closed.");
-    }
+    vector<string> stack(1, it->first);
+    it->second = resolveValue_(it->second, am, varTag, TextTools::toString(varEnd), stack);
   }
 }
 
